@@ -138,22 +138,26 @@ CHECKS = {
        "round trip parse∘serialize; acceptance implies stored Alh = Alh(parsed header) and Eh = RFC-6962 root of the version-dependent entry digests; ANY alteration of the bytes "
        "(any number of bits, any offsets) that keeps the Alh known for the tx leaves id, ts, version, tx metadata, nentries, BlTxID, BlRoot, PrevAlh and per entry key, kv metadata, hVal unchanged or "
        "exhibits a collision (flip_detected_partial); a value returned for a non-zero stored length has the entry's hash and length (value_authentic_partial); a full ascending scan ending in a known Alh "
-       "binds every record of the range (scan_binds_partial). The limits of the code are theorems too: vLen=0 is served unvalidated, a consistent rewrite of record+Alh is accepted by single-record reads (K2), "
-       "fetchVLog, the tx-metadata parser and the tx-metadata serialiser can panic. Tie: field order/widths of the record re-extracted from performPrecommit/readHeader/readEntry on every run and proved equal to the model's by decide; "
+       "binds every record of the range (scan_binds_partial); the parser and the value reads never panic (parse_never_panics, value_read_never_panics) and a stored vLen above MaxValueLen is rejected before allocating "
+       "(value_len_bounded) - full statements since the repairs of extraAttribute.deserialize, fetchVLog and the value-length check in /repo. The limits of the code are theorems too: vLen=0 is served unvalidated, "
+       "a consistent rewrite of record+Alh is accepted by single-record reads (K2). Tie: field order/widths of the record re-extracted from performPrecommit/readHeader/readEntry on every run and proved equal to the model's by decide; "
        "real store directories (plain / embedded / 3 vlogs / compressed, tiny chunk files, header v0+v1, kv+tx metadata) are copied and altered at every field of every record "
        "(boundary bits, every length/offset/count := 0/1/max/±1, vlog-id variants, metadata overruns, value bytes) plus seeded random single/multi-bit flips; ReadTx outcome (canonical record | error class | panic), "
        "ReadValue outcome and TxReader steps are compared with the Lean driver; pristine records are compared byte for byte with serializeTx. Model-independent oracle: every call of Open/ReadTx/ReadTxHeader/"
        "ReadTxEntry/ReadValue/ExportTx/TxReader/DualProof/Get returns an error or exactly the pristine content; panic, hang, >128 MiB allocation or different content = failure.",
   note=TB + " Modelled rather than verified: the appendable layer (chunk files, compression, caches) is abstracted to logical byte logs (compressed value logs are exercised by the oracle only, not by the model); "
-       "the tx-log cache, the indexer and DualProof are exercised by the oracle only; 'partial' = the full property is false for the current code: 12 known finding signatures (7 root causes) (known_findings.json) incl. the documented limit K2.",
+       "the tx-log cache, the indexer and DualProof are exercised by the oracle only; 'partial' = the full property is false for the current code: the known finding signatures of known_findings.json (vLen=0, ExportTx hang / truncated export, compressed-log allocation) incl. the documented limit K2.",
   technique="Lean 4 proof (parser inversion + collision-explicit hash-chain injectivity) + differential correspondence on systematically corrupted real store directories",
   design="7/C09"),
  "C16": dict(
   text="Go slice semantics are modelled explicitly (outcome = value | error class | PANIC, plus an allocation observable) and the binary decoders of "
        "embedded/store (TxMetadata.ReadFrom and attribute deserialisers, KVMetadata.unsafeReadFrom, TxHeader.ReadFrom, valueRefFrom, the framing part of "
        "ReplicateTx), embedded/appendable (Metadata.ReadFrom/readField over bufio) and embedded/sql (DecodeValueLength/DecodeValue) are transliterated "
-       "statement by statement. Lean theorems for EVERY byte string: never-panics where true (KVMetadata, valueRefFrom's own checks, SQL value decoders, attribute "
-       "deserialisers); where the current code does panic, a concrete witness theorem (7 witnesses, each replayed on the real code: known findings), the "
+       "statement by statement. Lean theorems for EVERY byte string: never-panics for the code as it stands (KVMetadata, SQL value decoders, attribute "
+       "deserialisers and, since the repairs of extraAttribute.deserialize / TxHeader.ReadFrom / ReplicateTx in /repo, TxMetadata.ReadFrom, TxHeader.ReadFrom, "
+       "valueRefFrom and the ReplicateTx framing: the former panic witnesses are restated as rejected inputs together with *_guard_needed theorems - the model "
+       "without the guard panics on exactly that input - and each is replayed on the real code); what ReadFrom accepts can be serialised again and accepted headers "
+       "carry complete Eh/BlTxID/BlRoot; where the current code still panics (appendable.Metadata.ReadFrom) a concrete witness theorem (known finding), the "
        "theorem that the code with the missing guard never panics, and the `_partial` theorem that the code as it is either equals the guarded code or panics "
        "exactly where the guard would return an error; allocation bounds from length fields (and an unboundedness witness for appendable.readField); loop bounds "
        "never reached (termination); ReplicateTx touches the store only after the whole input parsed. Tie: every decoder is called on valid encodings built "
@@ -206,7 +210,8 @@ CHECKS = {
        "per-column keys are prefix-free) and composite_roundtrip; the exact excluded points are proved as witnesses of the negation: "
        "negzero_encodes_differently, nan_order_violated, nan_compare_irreflexive, timestamp_order_violated_outside_nano_range. "
        "(2) row values (EncodeRawValue/decodeValue): value_roundtrip (timestamps to microseconds), witness nullable_empty_varchar/blob_decodes_null. "
-       "(3) store: txmd_roundtrip, kvmd_roundtrip, txheader_roundtrip (v0/v1, any metadata), witness txmd_readable_extra_makes_bytes_panic. "
+       "(3) store: txmd_roundtrip, kvmd_roundtrip, txheader_roundtrip (v0/v1, any metadata), txmd_readFrom_no_panic, txheader_readFrom_no_panic, "
+       "txmd_readable_is_serializable (what ReadFrom accepts is within the API limits and round-trips; the former panic witness is repaired in /repo). "
        "Tie: the real functions are called on boundary-biased values, pairs, rows and mutated encodings; every call is replayed on the Lean driver "
        "and compared byte for byte (encodings, decoded values, Compare results, error classes, panics); an independent oracle checks "
        "decode(encode v) = v, Go Compare = bytes.Compare of the Go keys, equal values => equal keys, row order = composite key order, "
